@@ -11,7 +11,9 @@ INFO = {
              'between the outermost application and inner levels, middleware lists sharing / not sharing unique types, a slash '
              'mode, an error handler and optionally a render factory per level, inherit_slashes / rebind_render on and off per '
              'embedding, routes with methods, behaviours and callable / factory-argument renders); each tree is compared with the '
-             'independently flattened declaration on the C06 request catalogue under every prefix and outside. Non-trivial = '
+             'independently flattened declaration on the C06 request catalogue under every prefix and outside; an application may be '
+             'mounted more than once (generated, plus the complete 256-tree family of one leaf under two mid-level applications x '
+             'render factory present/absent at four levels x rebind_render at four mounts). Non-trivial = '
              'depth >=2, or a resource name shared with the serving application, or a unique middleware type at two levels, or '
              'differing slash modes; distinct trees counted.'),
     'assumptions': ['both sides execute clastic; the flattening logic is the harness\'s own',
@@ -43,7 +45,11 @@ def strategy():
         n['handler'] = draw(st.sampled_from(['default', 'default', 'teapot', 'debug'] + (['echo-r1', 'echo-r1'] if 'r1' in n['res'] else [])))
         nitems = draw(st.integers(1, 3))
         for _ in range(nitems):
-            if depth < 2 and draw(st.integers(0, 9)) < (5 if depth == 0 else 3):
+            if depth < 2 and draw(st.integers(0, 9)) >= 8:
+                # an application built earlier in the tree (the k-th completed one) is mounted once more, here
+                n['items'].append(['again', draw(st.sampled_from(['/s', '/m/', '/t/u', '/again'])), draw(st.booleans()), draw(st.booleans()),
+                                   draw(st.integers(0, 5))])
+            elif depth < 2 and draw(st.integers(0, 9)) < (5 if depth == 0 else 3):
                 child_mid = mid_factory or (depth >= 1 and n['factory'])
                 sub = draw(node(depth + 1, child_mid))
                 n['items'].append(['app', draw(st.sampled_from(['/s', '/s/', '/', '/t/u', '/x'])), draw(st.booleans()), draw(st.booleans()), sub])
@@ -53,6 +59,33 @@ def strategy():
                                    draw(st.lists(st.sampled_from(RES), max_size=2, unique=True))])
         return n
     return node(0, False)
+
+
+def expand(tree):
+    """resolve 'again' items: ['again', prefix, inherit, rebind, k] becomes ['app', prefix, inherit, rebind, sub, level_id] where sub /
+    level_id are those of the k-th application completed so far in build order (depth first, items in order); without one it is dropped"""
+    import copy
+    tree = copy.deepcopy(tree)
+    order = []
+
+    def walk(node, level_id):
+        items = []
+        for i, it in enumerate(node['items']):
+            if it[0] == 'again':
+                if not order:
+                    continue
+                lid, sub = order[it[4] % len(order)]
+                items.append(['app', it[1], it[2], it[3], sub, lid])
+            elif it[0] == 'app':
+                lid = '%s.%d' % (level_id, i)
+                walk(it[4], lid)
+                order.append((lid, it[4]))
+                items.append(it[:5] + [lid])
+            else:
+                items.append(it + [i])
+        node['items'] = items
+    walk(tree, 'L')
+    return tree
 
 
 def inner_defs_ok(tree):
@@ -159,6 +192,7 @@ class Builder(object):
         self.values = {}      # (level_id, name) -> value
         self.eps = {}         # rid -> endpoint (shared by both applications)
         self.renders = {}
+        self.built = {}       # level_id -> Application (an application may be mounted more than once)
 
     def value(self, level_id, name):
         return self.values.setdefault((level_id, name), 'val[%s@%s]' % (name, level_id))
@@ -169,9 +203,9 @@ class Builder(object):
         entries = []
         res = dict((n, self.value(level_id, n)) for n in node['res'])
         avail = set(available) | set(node['res'])
-        for i, it in enumerate(node['items']):
+        for it in node['items']:
             if it[0] == 'route':
-                _, pattern, methods, beh, rk, uses = it
+                _, pattern, methods, beh, rk, uses, i = it
                 rid = '%s.%d' % (level_id, i)
                 names = [e[1] for e in U.parse(pattern)[0] if e[0] == 'b']
                 uses = [u for u in uses if u in node['res']]     # must be satisfiable inside its own application
@@ -183,8 +217,10 @@ class Builder(object):
                     render = 'tmpl-%s' % rid
                 entries.append(Route(pattern, ep, render, methods=methods))
             else:
-                _, prefix, inherit, rebind, sub = it
-                child = self.nested(sub, '%s.%d' % (level_id, i), avail)
+                _, prefix, inherit, rebind, sub, lid = it
+                if lid not in self.built:
+                    self.built[lid] = self.nested(sub, lid, avail)
+                child = self.built[lid]
                 entries.append(SubApplication(prefix, child, rebind_render=rebind, inherit_slashes=inherit))
         return Application(entries, resources=res, middlewares=[mw_obj(t) for t in node['mws']], slash_mode=node['mode'],
                            error_handler=handler(node['handler']), render_factory=factory(level_id) if node['factory'] else None)
@@ -201,12 +237,12 @@ class Builder(object):
             for n in node['res']:
                 res.setdefault(n, self.value(level_id, n))      # outer levels were entered first: they win
             merged = I.merge(stack, [{'tid': t, 'unique': t != 4, 'reorderable': True} for t in node['mws']])
-            for i, it in enumerate(node['items']):
+            for it in node['items']:
                 if it[0] == 'app':
-                    _, pfx, inherit, rebind, sub = it
-                    walk(sub, '%s.%d' % (level_id, i), prefix + pfx.rstrip('/'), merged, res, chain + [(node, inherit, rebind, level_id)])
+                    _, pfx, inherit, rebind, sub, lid = it
+                    walk(sub, lid, prefix + pfx.rstrip('/'), merged, res, chain + [(node, inherit, rebind, level_id)])
                     continue
-                _, pattern, methods, beh, rk, uses = it
+                _, pattern, methods, beh, rk, uses, i = it
                 rid = '%s.%d' % (level_id, i)
                 # slash mode: the route's own application's, replaced by each embedding application that inherits
                 mode = node['mode']
@@ -248,6 +284,15 @@ class Builder(object):
         return app, routes
 
 
+def lids(node):
+    out = []
+    for it in node['items']:
+        if it[0] == 'app':
+            out.append(it[5])
+            out += lids(it[4])
+    return out
+
+
 def prefixes(node, prefix=''):
     out = [prefix]
     for it in node['items']:
@@ -279,11 +324,15 @@ def nontrivial(tree):
     return depth[0] >= 2 or shared[0] or dup[0] or len(modes) > 1
 
 
-def body(tree, ctx):
+def body(tree, ctx, paths=None):
     rc = tree
+    original = tree
+    tree = expand(tree)
     if not inner_defs_ok(tree):
         ctx.event('skipped-name-at-two-inner-levels')
         return
+    if json.dumps(tree).count('"L.') and len(set(lids(tree))) < len(lids(tree)):
+        ctx.event('application-mounted-twice')
     b = Builder(tree)
     try:
         napp = b.nested(tree)
@@ -306,12 +355,16 @@ def body(tree, ctx):
     if got != want:
         ctx.mismatch('route-table', 'nested routes %r, flat %r' % (got, want), rc)
         return
-    expected_chain = dict((r_[7], [m['tid'] for m in r_[5]]) for r_ in routes)
+    expected_chain = {}
+    for r_ in routes:
+        expected_chain.setdefault(r_[7], set()).add(tuple(m['tid'] for m in r_[5]))     # one route under several mounts: any of its stacks
     reqs = []
     for pfx in sorted(set(prefixes(tree))):
         for p in PATHS:
             reqs.append(pfx + p)
     reqs += ['/outside', '/s', '/t']
+    if paths:
+        reqs = list(paths)
     for path in sorted(set(reqs)):
         if not path.startswith('/'):
             continue
@@ -326,13 +379,13 @@ def body(tree, ctx):
             # therefore also compared with the harness's merge (outer list, then inner; a unique *type* once, outermost)
             problem = chain_problem(out[0][3], expected_chain)
             if problem:
-                ctx.mismatch('differs-middleware', '%s %s: %s' % (method, path, problem), dict(tree=tree, request=[path, method]))
+                ctx.mismatch('differs-middleware', '%s %s: %s' % (method, path, problem), dict(tree=original, request=[path, method]))
                 return
             if out[0] != out[1]:
                 diff = [k for k, (a, c) in enumerate(zip(out[0], out[1])) if a != c]
                 what = ['status', 'body', 'Location', 'middleware/endpoint trace', 'exception'][diff[0]]
                 ctx.mismatch('differs-' + what.split('/')[0].split(' ')[0], '%s %s: %s differs: nested %r, flat %r'
-                             % (method, path, what, out[0][diff[0]], out[1][diff[0]]), dict(tree=tree, request=[path, method]))
+                             % (method, path, what, out[0][diff[0]], out[1][diff[0]]), dict(tree=original, request=[path, method]))
                 return
     ctx.event('trees-compared')
     if nontrivial(tree):
@@ -351,7 +404,7 @@ def chain_problem(trace, expected_chain):
         elif ev.startswith('ep'):
             rid = ev[2:]
             want = expected_chain.get(rid)
-            if want is not None and open_ != want:
+            if want is not None and tuple(open_) not in want:
                 return 'endpoint %s ran inside middlewares %r, the merged lists give %r' % (rid, open_, want)
     return None
 
@@ -362,14 +415,40 @@ def norm_body(b):
     return re.sub(rb'\(\d+ frames', b'(N frames', b)
 
 
+def twice_trees():
+    """complete family: one leaf application (a factory-argument route and a callable-render route) mounted under two mid-level
+    applications of one root; every combination of 'has a render factory' for root / first / second / leaf and of rebind_render
+    for the two leaf mounts and the two root mounts"""
+    import itertools
+    out = []
+    for f_root, f_first, f_second, f_leaf, rb1, rb2, rb_a, rb_b in itertools.product([False, True], repeat=8):
+        def app(fac, items, mws=()):
+            return {'mode': 'redirect', 'res': [], 'mws': list(mws), 'handler': 'default', 'factory': fac, 'items': items}
+        leaf = app(f_leaf, [['route', '/x', None, 'ctx', 'arg', []], ['route', '/y/', None, 'ctx', 'callable', []]], [1])
+        first = app(f_first, [['app', '/i', True, rb1, leaf]], [2])
+        second = app(f_second, [['again', '/i/', True, rb2, 0]])
+        out.append(app(f_root, [['app', '/a', True, rb_a, first], ['app', '/b', True, rb_b, second]]))
+    return out
+
+
 def shards(tier, seed):
     n = 100 if tier == "quick" else 3600
-    return [{'n': n} for _ in range(16)]
+    return [{'n': n, 'twice': k} for k in range(16)]
+
+
+TWICE_PATHS = ['/a/i/x', '/a/i/y/', '/b/i/x', '/b/i/y/', '/b/i/y', '/b/i/nope', '/a/i//x', '/c']
 
 
 def run_shard(spec, ctx):
+    fam = twice_trees()
+    for tree in fam[spec.get('twice', 0)::16]:
+        ctx.case({'tree': tree, 'paths': TWICE_PATHS})
+        try:
+            body(tree, ctx, paths=TWICE_PATHS)
+        except Exception as e:
+            ctx.classify_exc(e, {'tree': tree, 'paths': TWICE_PATHS}, 'tree')
     ctx.hyp(strategy(), body, spec['n'], kind='tree')
 
 
 def replay(case, kind, ctx):
-    body(case['tree'] if isinstance(case, dict) and 'tree' in case else case, ctx)
+    body(case['tree'] if isinstance(case, dict) and 'tree' in case else case, ctx)      # (always on the full request catalogue)
